@@ -7,6 +7,9 @@ ids=("$@"); [ ${#ids[@]} -eq 0 ] && ids=($(ls seeded))
 for id in "${ids[@]}"; do
   prop=${id%%[-_]*}
   extra=$(cat seeded/$id/extra_checks.txt 2>/dev/null)
-  out=$(tools/mutate.sh seeded/$id/patch.diff $prop $extra 2>&1 | grep -E 'DETECTED|MISSED|NOT-BUILD|does not apply|not clean' | cut -c1-400)
-  echo "$out" | sed "s/patch.diff/$id/" | tee seeded/$id/detection.txt
+  patch=seeded/$id/patch.diff
+  # a seed whose original patch no longer builds after a repair of /repo carries an adapted version
+  [ -f seeded/$id/patch_adapted.diff ] && patch=seeded/$id/patch_adapted.diff
+  out=$(tools/mutate.sh $patch $prop $extra 2>&1 | grep -E 'DETECTED|MISSED|NOT-BUILD|does not apply|not clean' | cut -c1-400)
+  echo "$out" | sed "s/patch_adapted.diff/$id(adapted)/;s/patch.diff/$id/" | tee seeded/$id/detection.txt
 done
